@@ -1,8 +1,179 @@
-import TapkeeVerif.Model.Pca
-/-! C06 property theorems (under construction; see Proofs/Spectral.lean). -/
-namespace TapkeeVerif.C06
+import TapkeeVerif.Proofs.Spectral
+import TapkeeVerif.Proofs.Covariance
+/-!
+# C06 — PCA projects onto the leading principal subspace of the sample covariance
 
-/-- the staged evaluation run by the driver is the model term -/
-theorem driver_runs_cov {N D : Nat} (X : DMat N D Rat) : (covD X).get = cov X.get := covD_eq X
+Model (`Model/Pca.lean`, `Model/Project.lean`): `computeMean`, `covarianceUpper` (the two `rankUpdate`s into the upper
+triangle), `mirrorLower` (the mirror line added by fix F-PCA-TRI), `covarianceMatrix`, `denseSym` / `upperView` (what
+the Dense / Randomized solver reads), `embedRows P μ X` (row `i` = `Pᵀ (x_i − μ)`).
+The eigensolver enters as the contract `IsTopEig (cov X) P lam` (certificate-checked on every run by `model_c06`).
+All theorems hold over every linearly ordered field (`ℝ`, `ℚ`), every `N`, `D`, `d`.
+-/
+namespace TapkeeVerif.C06
+open TapkeeVerif TapkeeVerif.Spectral Matrix Finset
+
+variable {K : Type} [Field K] [LinearOrder K] [IsStrictOrderedRing K]
+variable {N D d : Nat}
+
+/-- the upper triangle accumulated by the two `rankUpdate`s is the sample covariance `E[xxᵀ] − μμᵀ = Cov` -/
+theorem covarianceUpper_upper (X : Mat N D K) (a b : Fin D) (hab : a ≤ b) :
+    covarianceUpper X (computeMean X) a b = cov X a b :=
+  TapkeeVerif.covarianceUpper_upper X a b hab
+
+/-- `compute_covariance_matrix` returns the sample covariance, both triangles -/
+theorem covarianceMatrix_eq_cov (X : Mat N D K) : covarianceMatrix X (computeMean X) = cov X :=
+  TapkeeVerif.covarianceMatrix_eq_cov X
+
+/-- **the Dense solver (`(M + Mᵀ)/2`) sees the sample covariance** -/
+theorem dense_sees_cov (X : Mat N D K) : denseSym (pcaPre X) = cov X := TapkeeVerif.dense_sees_cov X
+
+/-- **the Randomized solver (`selfadjointView<Upper>`) sees the sample covariance** -/
+theorem randomized_sees_cov (X : Mat N D K) : upperView (pcaPre X) = cov X := TapkeeVerif.randomized_sees_cov X
+
+/-- Why the mirror line matters (the defect F-PCA-TRI, repaired in /repo 8822822): on the upper-triangular matrix the
+    Dense solver's symmetrisation halves every off-diagonal covariance, so `dense_sees_cov` is FALSE without it — it
+    holds exactly for data whose features are pairwise uncorrelated. -/
+theorem dense_sees_cov_without_mirror_iff (X : Mat N D K) :
+    denseSym (covarianceUpper X (computeMean X)) = cov X ↔ ∀ a b, a ≠ b → cov X a b = 0 := by
+  constructor
+  · intro h a b hab
+    have := congrFun (congrFun h a) b
+    rw [denseSym_upper_half, if_neg hab] at this
+    have h2 : (2 : K) ≠ 0 := two_ne_zero
+    field_simp at this
+    linarith
+  · intro h
+    funext a b
+    rw [denseSym_upper_half]
+    split_ifs with hab
+    · rfl
+    · rw [h a b hab]; simp
+
+/-- the concrete 2 × 2 witness: samples `(0,0)`, `(2,2)` have covariance `[[1,1],[1,1]]`; without the mirror the Dense
+    solver would decompose `[[1,½],[½,1]]` -/
+def witnessX : Mat 2 2 Rat := fun i _ => if i = 0 then 0 else 2
+
+theorem dense_sees_cov_without_mirror_refuted :
+    ¬ ∀ X : Mat 2 2 Rat, denseSym (covarianceUpper X (computeMean X)) = cov X := by
+  intro h
+  have := congrFun (congrFun (h witnessX) 0) 1
+  revert this
+  decide +kernel
+
+/-! ### Optimality -/
+
+omit [LinearOrder K] [IsStrictOrderedRing K] in
+/-- the embedding is (centred samples) × (projection matrix) -/
+theorem embedding_eq_centred_mul (X : Mat N D K) (P : Mat D d K) :
+    Mat.toM (embedRows P (computeMean X) X) = Mat.toM (centred X) * Mat.toM P := by
+  ext i j
+  simp only [Mat.toM_apply, embedRows, project, sumFin_eq_sum, Matrix.mul_apply, centred]
+  exact Finset.sum_congr rfl fun a _ => mul_comm _ _
+
+omit [LinearOrder K] [IsStrictOrderedRing K] in
+/-- `Cov X = (1/N) · Xcᵀ Xc` -/
+theorem cov_eq_gram (X : Mat N D K) :
+    Mat.toM (cov X) = (1 / (N : K)) • ((Mat.toM (centred X))ᵀ * Mat.toM (centred X)) := by
+  ext a b
+  simp only [Mat.toM_apply, cov, sumFin_eq_sum, Matrix.smul_apply, Matrix.mul_apply, transpose_apply, centred,
+    smul_eq_mul]
+  rw [div_eq_mul_inv, mul_comm, one_div]
+
+omit [LinearOrder K] [IsStrictOrderedRing K] in
+theorem cov_transpose (X : Mat N D K) : (Mat.toM (cov X))ᵀ = Mat.toM (cov X) := by
+  ext a b
+  simp only [transpose_apply, Mat.toM_apply]
+  exact cov_symm X b a
+
+/-- **PCA is optimal.**  If the eigensolver returns a top-`d` eigensystem `(P, lam)` of the sample covariance, then
+    * `P` has orthonormal columns,
+    * the embedding `Y = Xc·P` has centred, uncorrelated columns whose variances are the returned eigenvalues
+      (`(1/N)·YᵀY = diag lam`),
+    * no other `d`-column orthonormal projection retains more variance: `tr (Qᵀ Cov Q) ≤ Σ lam` (Ky Fan). -/
+theorem pca_optimal (X : Mat N D K) (hN : 0 < N) (P : Mat D d K) (lam : Vec d K)
+    (h : IsTopEig (Mat.toM (cov X)) (Mat.toM P) lam) :
+    (Mat.toM P)ᵀ * Mat.toM P = 1 ∧
+    (∀ j, ∑ i, embedRows P (computeMean X) X i j = 0) ∧
+    (1 / (N : K)) • ((Mat.toM (embedRows P (computeMean X) X))ᵀ * Mat.toM (embedRows P (computeMean X) X))
+      = diagonal lam ∧
+    ∀ Q : Matrix (Fin D) (Fin d) K, Qᵀ * Q = 1 → trace (Qᵀ * Mat.toM (cov X) * Q) ≤ ∑ j, lam j := by
+  have hN' : (N : K) ≠ 0 := Nat.cast_ne_zero.2 hN.ne'
+  refine ⟨h.ortho, ?_, ?_, fun Q hQ => h.kyFan (cov_transpose X) Q hQ⟩
+  · intro j
+    simp only [embedRows, project, sumFin_eq_sum]
+    rw [Finset.sum_comm]
+    refine Finset.sum_eq_zero fun a _ => ?_
+    rw [← Finset.mul_sum, Finset.sum_sub_distrib, computeMean_eq]
+    simp only [Finset.sum_const, Finset.card_univ, Fintype.card_fin, nsmul_eq_mul]
+    field_simp
+    ring
+  · rw [embedding_eq_centred_mul, transpose_mul, Matrix.mul_assoc, ← Matrix.mul_assoc _ (Mat.toM (centred X)),
+      ← Matrix.mul_smul, ← Matrix.smul_mul, ← cov_eq_gram, h.eig, ← Matrix.mul_assoc, h.ortho, Matrix.one_mul]
+
+/-! ### PCA, linear-kernel Kernel PCA and Euclidean MDS agree -/
+
+/-- with the linear kernel, Kernel PCA hands the Gram matrix of the centred samples to the eigensolver -/
+theorem kpcaPre_linear_eq_gram (X : Mat N D K) (κ : Fin N → Fin N → K) (hκ : ∀ i j, κ i j = ∑ a, X i a * X j a) :
+    Mat.toM (kpcaPre κ) = Mat.toM (centred X) * (Mat.toM (centred X))ᵀ := by
+  have hK : kernelMatrix κ = fun i j => ∑ a, X i a * X j a := by
+    funext i j
+    unfold kernelMatrix
+    split_ifs
+    · exact hκ i j
+    · rw [hκ j i]; exact Finset.sum_congr rfl fun a _ => mul_comm _ _
+  have hsymm : ∀ i j, kernelMatrix κ i j = kernelMatrix κ j i := by
+    intro i j; rw [hK]; exact Finset.sum_congr rfl fun a _ => mul_comm _ _
+  have hG : Mat.toM (kernelMatrix κ) = Mat.toM X * (Mat.toM X)ᵀ := by
+    ext i j; simp [hK, Matrix.mul_apply]
+  unfold kpcaPre
+  rw [center_eq_JAJ _ hsymm, hG, ← centering_mul_data, transpose_mul, centering_transpose]
+  simp only [Matrix.mul_assoc]
+
+/-- **Agreement of the three methods on feature data.**  With Euclidean distances and the linear kernel, MDS and
+    Kernel PCA decompose the *same* matrix `G = Xc·Xcᵀ`; and the PCA embedding `Y = Xc·P` built from ANY eigensystem
+    `(P, lam)` of the covariance satisfies exactly the relations that define the MDS / Kernel PCA output for the
+    eigenvalues `N·lam` (`G·Y = Y·diag(N·lam)`, `YᵀY = diag(N·lam)`): the three embeddings are the same scaled eigenvector
+    block of `G` — equal up to the sign of each column whenever the retained eigenvalues are simple; the covariance
+    eigenvalues and the Gram eigenvalues differ by the factor `N`. -/
+theorem pca_kpca_mds_agree (X : Mat N D K) (hN : 0 < N)
+    (δ : Fin N → Fin N → K) (hδ : ∀ i j, δ i j * δ i j = ∑ a, (X i a - X j a) * (X i a - X j a))
+    (κ : Fin N → Fin N → K) (hκ : ∀ i j, κ i j = ∑ a, X i a * X j a)
+    (P : Mat D d K) (lam : Vec d K) (h : IsEigSystem (Mat.toM (cov X)) (Mat.toM P) lam) :
+    Mat.toM (mdsPre δ) = Mat.toM (kpcaPre κ) ∧
+    Mat.toM (mdsPre δ) * Mat.toM (embedRows P (computeMean X) X)
+      = Mat.toM (embedRows P (computeMean X) X) * diagonal (fun j => (N : K) * lam j) ∧
+    (Mat.toM (embedRows P (computeMean X) X))ᵀ * Mat.toM (embedRows P (computeMean X) X)
+      = diagonal (fun j => (N : K) * lam j) := by
+  have hN' : (N : K) ≠ 0 := Nat.cast_ne_zero.2 hN.ne'
+  set Xc := Mat.toM (centred X) with hXc
+  have hcov : Xcᵀ * Xc = (N : K) • Mat.toM (cov X) := by
+    rw [cov_eq_gram, smul_smul, mul_one_div_cancel hN', one_smul]
+  have hdiag : (N : K) • diagonal lam = diagonal (fun j => (N : K) * lam j) := by
+    ext i j; simp [diagonal_apply]
+  refine ⟨by rw [mdsPre_eq_gram X δ hδ, kpcaPre_linear_eq_gram X κ hκ], ?_, ?_⟩
+  · rw [mdsPre_eq_gram X δ hδ, embedding_eq_centred_mul, ← hXc, Matrix.mul_assoc, ← Matrix.mul_assoc Xcᵀ, hcov,
+      Matrix.smul_mul, h.eig, Matrix.mul_smul, ← Matrix.mul_assoc, ← hdiag, Matrix.mul_smul]
+  · rw [embedding_eq_centred_mul, ← hXc, transpose_mul, Matrix.mul_assoc, ← Matrix.mul_assoc Xcᵀ, hcov,
+      Matrix.smul_mul, h.eig, Matrix.mul_smul, ← Matrix.mul_assoc, h.ortho, Matrix.one_mul, hdiag]
+
+/-! Non-vacuity: the hypotheses of `pca_optimal` are met by a concrete non-trivial instance
+    (three samples on a line in the plane, `d = 1`, `P = e₁`). -/
+example : ∃ (X : Mat 3 2 Rat) (P : Mat 2 1 Rat) (lam : Vec 1 Rat),
+    IsTopEig (Mat.toM (cov X)) (Mat.toM P) lam ∧ lam 0 ≠ 0 := by
+  refine ⟨fun i a => if a = 0 then (i.1 : Rat) else 5, fun a _ => if a = 0 then 1 else 0, fun _ => 2 / 3, ?_, by norm_num⟩
+  refine ⟨⟨?_, ?_⟩, ?_⟩
+  · ext a j
+    fin_cases a <;> fin_cases j <;>
+      simp [Matrix.mul_apply, Fin.sum_univ_succ, cov, computeMean, sumFin, List.finRange_succ, diagonal_apply] <;> norm_num
+  · ext a j
+    fin_cases a; fin_cases j
+    simp [Matrix.mul_apply, Fin.sum_univ_succ]
+  · intro x hx j
+    have hx0 : x 0 = 0 := by
+      have := congrFun hx 0
+      simpa [Matrix.mulVec, dotProduct, Fin.sum_univ_succ] using this
+    simp [Matrix.mulVec, dotProduct, Fin.sum_univ_succ, hx0, cov, computeMean, sumFin, List.finRange_succ]
+    norm_num
+    nlinarith [mul_self_nonneg (x 1)]
 
 end TapkeeVerif.C06
